@@ -14,6 +14,7 @@ into its grammars):
   3  `<< vh.Last(C, id, $k) >>`, k = n-1  node id [X[n-1]]
   4  `<< vh.TokOf(C, id, $T0) >>`         node id [X[0]]          (`$Tn`: X[0] must be a token)
   5  `<< vh.WithCtx($Context, id, X) >>`  node id [X...]          (`$Context`)
+  6  `<< vh.Pct(C, id, "%s|%d|%%|%v|%!", X) >>`  node id [X...]   (printf verbs in the action text arrive verbatim)
 Every harness action first appends `id` to the call log and fails (returns an error) when the
 call counter reaches `failAt`.
 -/
@@ -109,7 +110,7 @@ def recover (T : PTables) (errTerm : Nat) (input : List Nat) (ps : PState) :
 /-- the harness action shapes (see header) -/
 def userAction (shape id : Nat) (X : List Attr) : Except String Attr :=
   match shape with
-  | 1 | 5 => .ok (.node id X)
+  | 1 | 5 | 6 => .ok (.node id X)
   | 2 => match X with
     | x :: _ => .ok (.node id [x])
     | [] => .error "index out of range"
